@@ -21,7 +21,11 @@ type JApi struct {
 func NewJapi(filepath string, oo ...core.Option) (JApi, *jerr.JApiError) {
 	f, err := readPanicFree(filepath)
 	if err != nil {
-		return JApi{}, jerr.NewJApiError(err.Error(), f, 0)
+		// There is no file content to point at, so the error has only the file name.
+		return JApi{}, &jerr.JApiError{
+			Msg:      err.Error(),
+			Location: jerr.Location{File: fs.NewFile(filepath, "")},
+		}
 	}
 	return NewJApiFromFile(f, oo...)
 }
